@@ -290,8 +290,18 @@ class Report:
         path = write_replay(self.prop, replay_obj)
         self.violations.append((path, nofail, text))
 
-    def known_finding(self, text):
-        self.known.append(text)
+    def known_finding(self, text, key=None, replay_obj=None):
+        """Report a finding that is listed (status open) in known_findings.json for
+        this property; anything not listed there is a violation."""
+        for k in load_known():
+            if k.get('property') == self.prop and k.get('status', 'open') == 'open':
+                kk = k.get('key', '')
+                if (key is not None and key == kk) or (key is None and kk and kk in text):
+                    self.known.append(text if kk in text else '[%s] %s' % (kk, text))
+                    return True
+        self.violation(replay_obj or {'property': self.prop, 'what': text,
+                                      'note': 'reported as known by the check but not listed in known_findings.json'}, text=text)
+        return False
 
     def finish(self):
         cov = dict(self.coverage)
